@@ -9,12 +9,12 @@ Import ListNotations.
 
 (* The theorems below are about the repaired code: the sources the translator has just read must not contain the
    as-found text of F12 (guard), F19 (once per session), F20 (default route), F52 (lookup keys of a comma list unescaped
-   twice), and PassMessageCallbackAux must return NODE_DEPTH_SESSIONNAME, DumbReflectSession must start with both
+   twice), F63 (empty items of a comma list not looked up), and PassMessageCallbackAux must return NODE_DEPTH_SESSIONNAME, DumbReflectSession must start with both
    gateway/neighbour flags set. *)
 Theorem code_is_repaired :
-  (c_c05_guard_as_found, c_c05_once_as_found, c_c05_route_as_found, c_c05_uvkeys_as_found) = (0, 0, 0, 0)%N /\
+  (c_c05_guard_as_found, c_c05_once_as_found, c_c05_route_as_found, c_c05_uvkeys_as_found, c_c05_uvempty_as_found) = (0, 0, 0, 0, 0)%N /\
   (c_c05_pass_returns_session_depth, c_c05_default_flags_gw_and_nb) = (1, 1)%N /\ r_as_is = r_all_fixed /\
-  ((forall st, clause_keys st = clause_keys_with true st) \/ (forall st, clause_keys st = clause_keys_all st)).
+  (forall st, clause_keys st = clause_keys_all st).
 Proof. exact code_is_repaired_lemma. Qed.
 Print Assumptions code_is_repaired.
 
